@@ -388,7 +388,7 @@ def d6_chisq(ctx, fits, rule='C07-D6'):
 def d9_priors(ctx, fits):
     rule = 'C07-D9'
     f = fits.func('least_squares')
-    t = unparse(f)
+    t = fits.text(f)
     # list form: one prior per parameter, mask = all positions in order
     ok = 'loc_priors.append(_construct_prior_obs(i_prior, i_n))' in t and 'for i_n, i_prior in enumerate(priors):' in t and 'prior_mask = np.arange(len(priors))' in t
     ctx.check(rule, 'fits.py:least_squares#priors-list', ok, 'list priors: prior k constrains parameter k', 'list prior handling differs')
@@ -407,11 +407,12 @@ def d9_priors(ctx, fits):
     ok = any(unparse(s_.value) == '[o.value for o in loc_priors]' for s_ in pf) and any(unparse(s_.value) == '[o.dvalue for o in loc_priors]' for s_ in dpf)
     ctx.check(rule, 'fits.py:least_squares#prior-values', ok, 'prior central values and errors in the order of loc_priors', 'p_f / dp_f differ')
     c = fits.func('_construct_prior_obs')
-    t = unparse(c)
-    ok = 'isinstance(i_prior, Obs)' in t and 'return i_prior' in t and 'isinstance(i_prior, str)' in t and "raise TypeError" in t
+    t = fits.text(c)
+    ok = 'isinstance(i_prior, Obs)' in t and 'return i_prior' in t and 'isinstance(i_prior, str)' in t and "raise TypeError($$A)" in t
     ctx.check(rule, 'fits.py:_construct_prior_obs#dispatch', ok, 'Obs priors are used as they are, strings are parsed, anything else is rejected', 'prior construction differs')
     # no priors: empty vectors, the chi-square has no prior rows
-    ok = 'p_f = dp_f = np.array([])' in unparse(f) and 'prior_mask = []' in unparse(f) and 'loc_priors = []' in unparse(f)
+    t = fits.text(f)
+    ok = 'p_f = dp_f = np.array([])' in t and 'prior_mask = []' in t and 'loc_priors = []' in t
     ctx.check(rule, 'fits.py:least_squares#no-priors', ok, 'without priors all prior vectors are empty', 'no-prior defaults differ')
 
 
